@@ -1,0 +1,14 @@
+//go:build verif
+
+package httpheader
+
+/*@
+// what the configured header rules decide: a function of the rule set and of the header map (uninterpreted)
+ufunc hdrRulesAccept(spec int, h int) bool
+
+func (v Validator) Validate(h *HTTPHeader) (err error)
+  trusted
+  pure
+  requires h != nil
+  ensures (err == nil) <==> hdrRulesAccept(ref(v.spec), ref(h.h))
+@*/
